@@ -13,6 +13,8 @@ RULE = ("bounded-exhaustive token sequences over a 24-token alphabet (literals i
         "and (fault kind, token kind) of a rejected fault")
 ALPHABET = ["1", "'a'", "true", "x", "f", "(", ")", "[", "]", "{", "}", ",", ";", "+", "*", "!", "not", "++", "?", ":", "=", "in", "','", "':'"]
 FAULT_SYMS = ALPHABET + ["']'", "')'", "'}'", "-", "--", "AND", "&&", "2.5", "\"s\"", "y", "g"]
+# characters whose code point ends in the byte of a blank or a delimiter: they are ordinary name characters
+ALIAS = ["\u0120", "\u2120", "\u010a", "\u010d", "\u0109", "\u0128", "\u0129", "\u015b", "\u015d", "\u017b", "\u017d", "\u012c", "\u013b", "\u00a0", "\u3000", "\u2028"]
 
 
 def abstract(toks):
@@ -105,6 +107,14 @@ def run_shard(desc):
                 r = st[-1]
                 part["evaluations"] += 1
                 C["wl_special"] = C.get("wl_special", 0) + 1
+                if not fresh and judge_accepted(s_)[0] == "out":
+                    # execute() on a context that happens to bind the program text itself as a variable name
+                    run2 = common.run_vexec([{"op": "ctx", "id": 0, "vars": {s_: ["n", "7", 0], s_.strip(): ["n", "7", 0]}}, {"op": "exec", "ctx": 0, "text": s_, "via": "execute", "nosnap": True}], wd, "special-x-%d-%s" % (i, profile), profile)
+                    st2 = run2.steps()
+                    if run2.ended and len(st2) == 2:
+                        part["evaluations"] += 1
+                        if "ok" in (st2[1].get("res") or {}):
+                            part["violations"].append({"sig": ["execute-accepts-malformed", "context-dependent"], "what": "execute(`%s`, ctx) returns %s when ctx binds a variable named like the program text; the text is not a sentence of the grammar" % (s_, json.dumps(st2[1].get("res"))), "replay": None})
                 stt, toks = judge_accepted(s_)
                 if r.get("p") == "ok" and stt == "out":
                     viol(s_, toks, "as the FIRST engine call of a fresh process," if fresh else "input")
@@ -139,6 +149,12 @@ def run_shard(desc):
                 s = ref.join_tokens(toks, rnd=rnd, compact=rnd.random())
                 for c in c01.corruptions(rnd, s) + c01.corruptions(rnd, s):
                     inputs.append((c, "corruption"))
+                # an alias character in place of a separator / delimiter / blank
+                for _ in range(3):
+                    idx = [i for i, ch in enumerate(s) if ch in " ,:;()[]{}"]
+                    if idx:
+                        i = rnd.choice(idx)
+                        inputs.append((s[:i] + rnd.choice(ALIAS) + s[i + 1:], "alias-char"))
         steps = [{"op": "parse", "text": s} for s, _ in inputs]
         recs, events, _ = common.run_batch(steps, wd, "%s-%d" % (kind, si), profile, timeout=1200)
         for (s, how), r in zip(inputs, recs):
